@@ -185,3 +185,142 @@ Example C06_sim_witness_values :
   map (fun a => is_successful (cf_static SimReachExamples.Cx) (e_world (sm_exec (SimReachExamples.mid a))) 0)
       [ANaive; AStarter; AOverbook; APriority; APriorityPool] = [false; false; true; false; false].
 Proof. vm_compute. reflexivity. Qed.
+
+(* ------------------------------------------------------------------------------------------------------ *)
+(* Audit A, C06: p99_latency, failure_error_counts, the uncontended pipeline at simulator level            *)
+(* ------------------------------------------------------------------------------------------------------ *)
+From Eudoxia Require Import Model.StatsExtra Proofs.StatsExtraFacts.
+
+(* p99_latency (the overall one, [st_p99]: the 99th percentile of executor.container_tick_times() in seconds)
+   is the percentile of the container run lengths RECOUNTED FROM THE EVENT LOG ALONE: [rc_run_lengths logs]
+   (Model/StatsExtra.v) has one entry per reported result, successful or failed, namely
+   (tick of the result) - (tick of the container's creation) + 1, where the creation tick of container id c is
+   the tick whose assignments cover position c of the concatenated assignment lists (ids are handed out in
+   order of creation). The recorded container_tick_times of the pools are a permutation of that recount.
+   Holds for every scheduler and also for a run that stopped at an error ([e] arbitrary). *)
+Theorem C06_p99_refines_recount : forall C a np cpu ram arrivals s logs e,
+  sim_run C a 0%Z (init_sim C np cpu ram) arrivals = (s, logs, e) ->
+  forall dur : Q,
+  st_p99 (final_stats C dur s) = div_tps (cf_tps C) (percentile99 (rc_run_lengths logs)) /\
+  Permutation (flat_map p_tick_times (e_pools (sm_exec s))) (rc_run_lengths logs) /\
+  length (rc_run_lengths logs) = length (rc_results logs).
+Proof. exact p99_refines_recount. Qed.
+Print Assumptions C06_p99_refines_recount.
+
+(* ... and for the entry point (scheduler construction refusals, the zero-RAM epilogue) *)
+Theorem C06_p99_refines_recount_main : forall C a np cpu ram arrivals s logs e,
+  sim_main C a np cpu ram arrivals = (s, logs, e) ->
+  forall dur : Q,
+  st_p99 (final_stats C dur s) = div_tps (cf_tps C) (percentile99 (rc_run_lengths logs)) /\
+  Permutation (flat_map p_tick_times (e_pools (sm_exec s))) (rc_run_lengths logs) /\
+  length (rc_run_lengths logs) = length (rc_results logs).
+Proof. exact p99_refines_recount_main. Qed.
+Print Assumptions C06_p99_refines_recount_main.
+
+(* failure_error_counts (Model/StatsExtra.v: the dict error string -> count the loop fills from the failed
+   results; the executor's only error string, "OOM", is coded 1) is empty when nothing failed and
+   {OOM: failures} otherwise, [failures] being the failure counter of the returned statistics. This is the
+   rule of the harness monitor (harness/props/C06.py): {'OOM': fail} if fail else {}. *)
+Theorem C06_failure_counts : forall C a np cpu ram arrivals s logs e,
+  sim_run C a 0%Z (init_sim C np cpu ram) arrivals = (s, logs, e) ->
+  forall dur : Q,
+  let failures := st_failures (final_stats C dur s) in
+  failure_error_counts logs = if (failures =? 0)%Z then [] else [(1, failures)].
+Proof. exact failure_counts. Qed.
+Print Assumptions C06_failure_counts.
+
+Theorem C06_failure_counts_main : forall C a np cpu ram arrivals s logs e,
+  sim_main C a np cpu ram arrivals = (s, logs, e) ->
+  forall dur : Q,
+  let failures := st_failures (final_stats C dur s) in
+  failure_error_counts logs = if (failures =? 0)%Z then [] else [(1, failures)].
+Proof. exact failure_counts_main. Qed.
+Print Assumptions C06_failure_counts_main.
+
+(* ... and against the log directly *)
+Theorem C06_failure_counts_recount : forall logs,
+  failure_error_counts logs = if (rc_failures logs =? 0)%Z then [] else [(1, rc_failures logs)].
+Proof. exact failure_counts_recount. Qed.
+Print Assumptions C06_failure_counts_recount.
+
+(* An uncontended pipeline with enough memory finishes in exactly the ticks its operators need, at the level
+   of the simulator loop (arrival -> assignment -> execution -> completion sweep -> latency statistic):
+   naive with multi-operator containers, one pool, exact arithmetic. The only pipeline [k] of the run arrives
+   in tick t0; no demand of its operators (run with the pool's CPUs) exceeds the pool's RAM. Then the run
+   reaches its last tick, the scheduler hands the whole pool to the pipeline in the arrival tick, the
+   container runs from that same tick and reports success in tick t0 + total - 1 (total = sum of the script
+   lengths); that is the only tick with a result, and the tick in which the pipeline is recorded as finished.
+   Its latency is total - 1 ticks; mean and p99 latency of the returned statistics are (total - 1) / tps. *)
+Theorem C06_uncontended_latency_sim : forall C l cpu ram k t0 n,
+  cf_static C = mk_static l -> dags_wf l -> cf_multi C = true ->
+  (forall x, (cf_rnd C x == x)%Q) ->
+  (0 < cpu)%Z -> (0 < ram)%Q ->
+  let ops := pd_order (pipe_of (cf_static C) k) in
+  let pr := pd_prio (pipe_of (cf_static C) k) in
+  let total := total C ops cpu in
+  ops <> [] -> (forall i, i < length ops -> scr C ops cpu i <> []) -> all_fit C ops cpu ram ->
+  total - 1 <= n ->
+  let r := {| r_cid := 0; r_ops := ops; r_cpu := cpu; r_ram := ram; r_prio := pr; r_pool := 0;
+              r_err := false |} in
+  exists s logs,
+    sim_run C ANaive 0%Z (init_sim C 1 cpu ram) (repeat [] t0 ++ [k] :: repeat [] n) = (s, logs, None) /\
+    map tl_new logs = repeat [] t0 ++ [k] :: repeat [] n /\
+    map tl_results logs = repeat [] (t0 + (total - 1)) ++ [r] :: repeat [] (n - (total - 1)) /\
+    map tl_finished logs = repeat [] (t0 + (total - 1)) ++ [k] :: repeat [] (n - (total - 1)) /\
+    sm_arrival s = [(k, Z.of_nat t0)] /\ sm_lat s = [(pr, Z.of_nat (total - 1))] /\
+    forall dur : Q,
+      let st := final_stats C dur s in
+      st_all st = pipeline_stats (cf_tps C) 1 [Z.of_nat (total - 1)] /\
+      (exists m p, pst_mean (st_all st) = Some m /\ pst_p99 (st_all st) = Some p /\
+                   (m == inject_Z (Z.of_nat (total - 1)) / inject_Z (cf_tps C))%Q /\
+                   (p == inject_Z (Z.of_nat (total - 1)) / inject_Z (cf_tps C))%Q).
+Proof. exact uncontended_latency_sim. Qed.
+Print Assumptions C06_uncontended_latency_sim.
+
+(* non-vacuity. A run with one success (2 ticks) and one OOM failure (5 ticks): the recount, p99 = 0.497 s,
+   failure_error_counts = {OOM: 1}; a prefix without failure has the empty dict *)
+Example C06_p99_witness :
+  sim_run StatsExtraExamples.xC ANaive 0%Z (init_sim StatsExtraExamples.xC 1 4%Z 8%Q)
+          StatsExtraExamples.x_arrivals
+    = (StatsExtraExamples.x_s, StatsExtraExamples.x_logs, None) /\
+  rc_run_lengths StatsExtraExamples.x_logs = [2%Z; 5%Z] /\
+  st_p99 (final_stats StatsExtraExamples.xC 1%Q StatsExtraExamples.x_s)
+    = div_tps 10%Z (percentile99 [2%Z; 5%Z]) /\
+  option_map Qred (st_p99 (final_stats StatsExtraExamples.xC 1%Q StatsExtraExamples.x_s))
+    = Some (497 # 1000)%Q.
+Proof.
+  split; [exact StatsExtraExamples.x_run|].
+  split; [exact (proj1 (proj2 (proj2 (proj2 StatsExtraExamples.x_recount))))|].
+  exact StatsExtraExamples.x_p99.
+Qed.
+Example C06_failure_counts_witness :
+  failure_error_counts StatsExtraExamples.x_logs
+    = [(1, st_failures (final_stats StatsExtraExamples.xC 1%Q StatsExtraExamples.x_s))] /\
+  st_failures (final_stats StatsExtraExamples.xC 1%Q StatsExtraExamples.x_s) = 1%Z /\
+  failure_error_counts (firstn 5 StatsExtraExamples.x_logs) = [].
+Proof.
+  split; [exact StatsExtraExamples.x_failure_counts|].
+  split; [exact (proj2 (proj2 (proj2 (proj2 (proj2 (proj2 StatsExtraExamples.x_recount))))))|].
+  exact StatsExtraExamples.x_no_failure.
+Qed.
+(* the hypotheses of C06_uncontended_latency_sim hold for a two-operator chain (3 + 2 ticks, the last one at
+   exactly the pool's 8 GB) arriving alone in tick 2: finished in tick 6, latency 4 ticks; and the same values
+   computed directly *)
+Example C06_uncontended_latency_sim_witness :
+  exists s logs,
+    sim_run StatsExtraExamples.uC ANaive 0%Z (init_sim StatsExtraExamples.uC 1 4%Z 8%Q)
+            StatsExtraExamples.u_arrivals = (s, logs, None) /\
+    map tl_finished logs = [[]; []; []; []; []; []; [1]; []; []] /\
+    map (fun lg => map (fun r => (r_ops r, r_err r)) (tl_results lg)) logs
+      = [[]; []; []; []; []; []; [([1; 2], false)]; []; []] /\
+    sm_lat s = [(Batch, 4%Z)] /\
+    st_all (final_stats StatsExtraExamples.uC 1%Q s) = pipeline_stats 10%Z 1%Z [4%Z].
+Proof. exact StatsExtraExamples.u_applies. Qed.
+Example C06_uncontended_latency_sim_computed :
+  sim_run StatsExtraExamples.uC ANaive 0%Z (init_sim StatsExtraExamples.uC 1 4%Z 8%Q)
+          StatsExtraExamples.u_arrivals = (StatsExtraExamples.u_s, StatsExtraExamples.u_logs, None) /\
+  map tl_finished StatsExtraExamples.u_logs = [[]; []; []; []; []; []; [1]; []; []] /\
+  sm_lat StatsExtraExamples.u_s = [(Batch, 4%Z)] /\
+  option_map Qred (pst_mean (st_all (final_stats StatsExtraExamples.uC 1%Q StatsExtraExamples.u_s)))
+    = Some (2 # 5)%Q.
+Proof. exact StatsExtraExamples.u_computed. Qed.
